@@ -376,3 +376,28 @@ def dec_spectrum(rng, N, name):
         if dec_signature(N, l, eps) == target:
             return l
     raise RuntimeError("no spectrum for pattern " + name)
+
+
+# ---- derivatives of the eigen-tensors (mutation audit 2026-09-22; StensorComputeEigenVectorsDerivatives.hxx)
+def reg_inverse(x, eps):
+    """regularized_inverse of the code: 0 at x = 0, 1/x for |x| > eps, (x/eps)^2 (4 - (x/eps)^2) / (3 x) inside"""
+    if sign(x) == 0:
+        return ZERO
+    y = x / eps
+    if sign(qabs(y) - Q2(1)) > 0:
+        return Q2(1) / x
+    return y * y * (Q2(4) - y * y) / (Q2(3) * x)
+
+
+def eigtd_action(N, i, M, l, eps):
+    """H -> d(n_i (x) n_i)[H] = M (T o (M^T H M)) M^T with T_ij = T_ji = r(l_i - l_j) for j != i, zero elsewhere
+    (2D: only the in-plane pair (0,1) interacts; the third eigen-tensor is constant)"""
+    z = [[ZERO] * 3 for _ in range(3)]
+    for j in range(3):
+        if j == i:
+            continue
+        if N == 2 and (i == 2 or j == 2):
+            continue
+        z[i][j] = z[j][i] = reg_inverse(l[i] - l[j], eps)
+    T = M3(z)
+    return lambda H: dk_act(M, T, H)
